@@ -729,6 +729,7 @@ pub fn run(tier: &str, seed: u64) -> i32 {
             });
         }
     }
+    cases.push(SwitchCase { prog: real_shapes_program(), subcube: false });
     let n_vertices = Vertex::all().len();
     let mut st = sweep(
         &format!(
